@@ -180,5 +180,5 @@ Example C17_example_cap :
   all_wb ws /\ lw_run 10 ws = [mk_wres 4 WNil (Some 4); mk_wres 6 WNil (Some 6); mk_wres 0 WLimit None]%Z.
 Proof.
   split; [|reflexivity].
-  repeat constructor; cbn; try lia; apply scripted_wb; lia.
+  unfold all_wb. repeat (apply Forall_cons; [cbn; split; [lia | apply scripted_wb; lia] |]). apply Forall_nil.
 Qed.
